@@ -431,6 +431,10 @@ std::string sqf::fileio::impl_default::read_file(sqf::runtime::fileio::pathinfo 
 
             // Find the entry this virtual path was registered for in add_pbo_mapping
             auto wanted = std::filesystem::path("/" + info.virtual_).lexically_normal().relative_path();
+            if (!wanted.has_filename() && wanted.has_parent_path())
+            { // "a/b/" (what "a/b/c/.." is normalised to) names a/b
+                wanted = wanted.parent_path();
+            }
             for (auto& file_desc : res->second.files())
             {
                 if (pbo_entry_path(prefix, file_desc.name) == wanted)
